@@ -21,6 +21,7 @@ import (
 	"fmt"
 	"log"
 	"os"
+	"reflect"
 	"time"
 
 	"github.com/Comcast/sheens/core"
@@ -454,6 +455,31 @@ func copyPropValue(x interface{}) interface{} {
 		}
 		return acc
 	default:
+		// A typed container (map[string]string, []string,
+		// []map[string]interface{}, ...) is structure, too: goja
+		// hands any Go map or slice to the script as a live
+		// object.
+		rv := reflect.ValueOf(x)
+		switch rv.Kind() {
+		case reflect.Map:
+			if rv.IsNil() || rv.Type().Key().Kind() != reflect.String {
+				return x
+			}
+			acc := make(map[string]interface{}, rv.Len())
+			for _, k := range rv.MapKeys() {
+				acc[k.String()] = copyPropValue(rv.MapIndex(k).Interface())
+			}
+			return acc
+		case reflect.Slice:
+			if rv.IsNil() || rv.Type().Elem().Kind() == reflect.Uint8 {
+				return x
+			}
+			acc := make([]interface{}, rv.Len())
+			for i := range acc {
+				acc[i] = copyPropValue(rv.Index(i).Interface())
+			}
+			return acc
+		}
 		return x
 	}
 }
